@@ -445,6 +445,23 @@ def check_forwarding(ck, F, tr, imp, iname, m):
                 continue        # on_id_change is by design sent only when the inner collector returned a different id
             if b is top and not top.postdominates(bb, 0):
                 problems.append("`%s` is forwarded to %s only on some paths" % (t["callee"]["method"], receiver_key(b, t)))
+    # any wrapper: a notification (a method returning `()`) may be withheld only for a reason found in the wrapper's own
+    # state -- the Option is None, the Vec is exhausted, the filter said no, the lock is poisoned. A path that returns
+    # without forwarding and without having looked at `self` at all drops the notification for an unrelated reason.
+    if top.raw.get("locals") and str(top.raw["locals"][0]) == "()" and all(b is top for b, bb, t in fwd) and name != "on_subscribe":
+        from rulekit.sym import PathEval, show
+        fbs = {bb for b, bb, t in fwd}
+        try:
+            paths = PathEval(top, max_paths=4000).run()
+        except TypeError:
+            paths = PathEval(top).run()
+        for pth in paths:
+            if pth.end != "return" or fbs & set(pth.blocks):
+                continue
+            if not any("arg1" in show(c[0]) for c in pth.conds):
+                problems.append("a path returns without forwarding `%s` and without consulting the wrapper's own state (conditions: %s)"
+                                % (name, [show(c[0])[:40] for c in pth.conds][:3]))
+                break
     if problems:
         ck.bad(RIDS["R2"], key, where(top.raw["sp"]), "; ".join(problems), fn=path)
     else:
